@@ -106,7 +106,33 @@ func (s *fileState) exec(c *ctx, op string) string {
 		if err := os.WriteFile(s.name[pi], content, 0o644); err != nil {
 			panic(err)
 		}
-		args := []string{s.name[pi]}
+		// the name given to the plugin: the file itself, or (fsetup … <how>) a symbolic link to it — relative, in the same
+		// directory ("l"), or absolute from another directory ("L") —, or a spelling with ./ and // in it ("d").
+		// Rewrites always go to the real file, in place.
+		given := s.name[pi]
+		if len(f) > 4 {
+			switch f[4] {
+			case "l":
+				given = filepath.Join(s.dir, fmt.Sprintf("link%d", s.nfile))
+				if err := os.Symlink(filepath.Base(s.name[pi]), given); err != nil {
+					panic(err)
+				}
+			case "L":
+				sub := filepath.Join(s.dir, fmt.Sprintf("etc%d", s.nfile))
+				os.MkdirAll(sub, 0o755)
+				abs, err := filepath.Abs(s.name[pi])
+				if err != nil {
+					panic(err)
+				}
+				given = filepath.Join(sub, "leases")
+				if err := os.Symlink(abs, given); err != nil {
+					panic(err)
+				}
+			case "d":
+				given = "./" + filepath.Dir(s.name[pi]) + "//" + filepath.Base(s.name[pi])
+			}
+		}
+		args := []string{given}
 		if f[2] == "1" {
 			args = append(args, "autorefresh")
 		}
@@ -219,6 +245,8 @@ func (s *fileState) q4(mac []byte) string {
 	if out == nil {
 		return "nil"
 	}
+	// what HandleMsg4 does next is to serialise the reply (a panic there is the caller's `guard`'s to report)
+	_ = out.ToBytes()
 	if stop {
 		return fmt.Sprintf("yiaddr %s stop", hx(out.YourIPAddr.To4()))
 	}
@@ -432,7 +460,11 @@ func genFile(c *ctx) {
 		for _, k := range kinds {
 			v6 := k == '6'
 			auto := c.rng.Intn(2)
-			hist = append(hist, fmt.Sprintf("fsetup %c %d %s", k, auto, hx(mkFile(v6, c.rng.Intn(6) == 0))))
+			how := ""
+			if c.rng.Intn(3) == 0 {
+				how = " " + pick(c, []string{"l", "L", "d"})
+			}
+			hist = append(hist, fmt.Sprintf("fsetup %c %d %s%s", k, auto, hx(mkFile(v6, c.rng.Intn(6) == 0)), how))
 		}
 		steps := 6 + c.rng.Intn(14)
 		for i := 0; i < steps; i++ {
